@@ -29,14 +29,35 @@ type c16Req struct {
 	Topic string  `json:"topic"`
 	Parts []int32 `json:"parts"`
 }
+type c16CPart struct {
+	Part int32   `json:"part"`
+	Off  int64   `json:"off"`
+	Meta *string `json:"meta"` // nil = null metadata in the request
+}
+type c16CTopic struct {
+	Topic string      `json:"topic"`
+	Parts []c16CPart `json:"parts"`
+}
 type c16Step struct {
-	Commit bool     `json:"commit"`
-	Group  string   `json:"group"`
-	Topic  string   `json:"topic,omitempty"`
-	Part   int32    `json:"part,omitempty"`
-	Off    int64    `json:"off,omitempty"`
-	Meta   string   `json:"meta,omitempty"`
-	Req    []c16Req `json:"req,omitempty"`
+	Commit bool   `json:"commit"`
+	Group  string `json:"group"`
+	// one-partition commit (shorthand, metadata always present) ...
+	Topic string `json:"topic,omitempty"`
+	Part  int32  `json:"part,omitempty"`
+	Off   int64  `json:"off,omitempty"`
+	Meta  string `json:"meta,omitempty"`
+	// ... or a whole OffsetCommit request: topics x partitions, metadata null / "" / text
+	Creq []c16CTopic `json:"creq,omitempty"`
+	Req  []c16Req    `json:"req,omitempty"`
+}
+
+// the commit request of a step, shorthand expanded
+func (s c16Step) commitReq() []c16CTopic {
+	if len(s.Creq) > 0 {
+		return s.Creq
+	}
+	m := s.Meta
+	return []c16CTopic{{Topic: s.Topic, Parts: []c16CPart{{Part: s.Part, Off: s.Off, Meta: &m}}}}
 }
 type c16Case struct {
 	Etcd  bool      `json:"etcd"`
@@ -127,25 +148,56 @@ func c16Run(e *c16Env, cs c16Case) (obs [][]c16Obs, failKind, fail string) {
 					members: map[string]*memberState{"m": {lastHeartbeat: time.Now(), sessionTimeout: time.Hour}}, assignments: map[string][]assignmentTopic{}}
 			}
 			c.mu.Unlock()
+			creq := s.commitReq()
 			req := kmsg.NewPtrOffsetCommitRequest()
 			req.Group, req.MemberID, req.Generation = s.Group, "m", 1
-			rt := kmsg.NewOffsetCommitRequestTopic()
-			rt.Topic = s.Topic
-			rp := kmsg.NewOffsetCommitRequestTopicPartition()
-			rp.Partition, rp.Offset = s.Part, s.Off
-			meta := s.Meta
-			rp.Metadata = &meta
-			rt.Partitions = append(rt.Partitions, rp)
-			req.Topics = append(req.Topics, rt)
+			nparts := 0
+			for _, ct := range creq {
+				rt := kmsg.NewOffsetCommitRequestTopic()
+				rt.Topic = ct.Topic
+				for _, cp := range ct.Parts {
+					rp := kmsg.NewOffsetCommitRequestTopicPartition()
+					rp.Partition, rp.Offset = cp.Part, cp.Off
+					if cp.Meta != nil {
+						m := *cp.Meta
+						rp.Metadata = &m
+					}
+					rt.Partitions = append(rt.Partitions, rp)
+					nparts++
+				}
+				req.Topics = append(req.Topics, rt)
+			}
 			resp, err := c.OffsetCommit(ctx, req)
-			if err != nil || len(resp.Topics) != 1 || len(resp.Topics[0].Partitions) != 1 || resp.Topics[0].Partitions[0].ErrorCode != 0 {
-				setFail("commit-rejected", fmt.Sprintf("step %d: OffsetCommit(%q,%q,%d) failed: %v %+v", i, s.Group, s.Topic, s.Part, err, resp))
+			okResp := err == nil && resp != nil && len(resp.Topics) == len(creq)
+			if okResp {
+				for ti, rt := range resp.Topics {
+					if rt.Topic != creq[ti].Topic || len(rt.Partitions) != len(creq[ti].Parts) {
+						okResp = false
+						break
+					}
+					for pi, rp := range rt.Partitions {
+						if rp.Partition != creq[ti].Parts[pi].Part || rp.ErrorCode != 0 {
+							okResp = false
+						}
+					}
+				}
+			}
+			if !okResp {
+				setFail("commit-rejected", fmt.Sprintf("step %d: OffsetCommit(group %q, %d topics, %d partitions) failed or answered another shape: %v %+v", i, s.Group, len(creq), nparts, err, resp))
 				if cs.Etcd {
 					c16LastKeys = append(c16LastKeys, e.consumerKeys())
 				}
 				continue
 			}
-			ref[c16Key{s.Group, s.Topic, s.Part}] = c16Val{s.Off, s.Meta}
+			for _, ct := range creq {
+				for _, cp := range ct.Parts {
+					m := ""
+					if cp.Meta != nil {
+						m = *cp.Meta
+					}
+					ref[c16Key{s.Group, ct.Topic, cp.Part}] = c16Val{cp.Off, m}
+				}
+			}
 			if cs.Etcd {
 				c16LastKeys = append(c16LastKeys, e.consumerKeys())
 			}
@@ -206,8 +258,12 @@ func c16Run(e *c16Env, cs c16Case) (obs [][]c16Obs, failKind, fail string) {
 func c16Classify(cs c16Case, kind string) string {
 	if cs.Etcd && (kind == "readback" || kind == "never-committed") {
 		for _, s := range cs.Steps {
-			if s.Commit && strings.Contains(s.Topic, "/") {
-				return "etcd-topic-name-with-slash"
+			if s.Commit {
+				for _, ct := range s.commitReq() {
+					if strings.Contains(ct.Topic, "/") {
+						return "etcd-topic-name-with-slash"
+					}
+				}
 			}
 			for _, r := range s.Req {
 				if strings.Contains(r.Topic, "/") {
@@ -222,6 +278,8 @@ func c16Classify(cs c16Case, kind string) string {
 	}
 	return kind + "-" + store
 }
+
+func c16P(s string) *string { return &s }
 
 func c16Str(s string) string {
 	if s == "" {
@@ -249,7 +307,19 @@ func c16Coq(cs c16Case, obs [][]c16Obs, keys [][]string) string {
 				ks = "(Some " + cqList(it) + ")"
 			}
 			kc++
-			steps = append(steps, fmt.Sprintf("KCommit %s %s %s %s %s %s", c16Str(s.Group), c16Str(s.Topic), cqZ(int64(s.Part)), cqZ(s.Off), c16Str(s.Meta), ks))
+			var ts []string
+			for _, ct := range s.commitReq() {
+				var ps []string
+				for _, cp := range ct.Parts {
+					m := "None"
+					if cp.Meta != nil {
+						m = "(Some " + c16Str(*cp.Meta) + ")"
+					}
+					ps = append(ps, fmt.Sprintf("(%s, %s, %s)", cqZ(int64(cp.Part)), cqZ(cp.Off), m))
+				}
+				ts = append(ts, "("+c16Str(ct.Topic)+", "+cqList(ps)+")")
+			}
+			steps = append(steps, fmt.Sprintf("KCommit %s %s %s", c16Str(s.Group), cqList(ts), ks))
 			continue
 		}
 		var req, ob []string
@@ -309,8 +379,41 @@ func c16Gen(r *vRand, etcd bool) c16Case {
 			if r.Chance(10) {
 				off = int64(r.U64() >> 2)
 			}
-			cs.Steps = append(cs.Steps, c16Step{Commit: true, Group: g, Topic: ts[r.Intn(len(ts))], Part: part(), Off: off,
-				Meta: []string{"", "m1", "mëta", "a:b/c"}[r.Intn(4)]})
+			if r.Chance(45) {
+				cs.Steps = append(cs.Steps, c16Step{Commit: true, Group: g, Topic: ts[r.Intn(len(ts))], Part: part(), Off: off,
+					Meta: []string{"", "m1", "mëta", "a:b/c"}[r.Intn(4)]})
+				continue
+			}
+			// a whole request: 1-4 topics x 1-4 partitions, metadata null / "" / text per partition
+			st := c16Step{Commit: true, Group: g}
+			for a := 0; a < r.Range(1, 4); a++ {
+				ct := c16CTopic{Topic: ts[r.Intn(len(ts))]}
+				for b := 0; b < r.Range(1, 4); b++ {
+					cp := c16CPart{Part: int32(r.Range(0, 3)), Off: int64(r.Range(0, 60))}
+					switch r.Intn(3) {
+					case 0: // null
+					case 1:
+						e := ""
+						cp.Meta = &e
+					default:
+						m := fmt.Sprintf("meta-%d-%d-%d", i, a, b)
+						cp.Meta = &m
+					}
+					ct.Parts = append(ct.Parts, cp)
+				}
+				st.Creq = append(st.Creq, ct)
+			}
+			cs.Steps = append(cs.Steps, st)
+			// read everything of the request back right away
+			rd := c16Step{Group: g}
+			for _, ct := range st.Creq {
+				rq := c16Req{Topic: ct.Topic}
+				for _, cp := range ct.Parts {
+					rq.Parts = append(rq.Parts, cp.Part)
+				}
+				rd.Req = append(rd.Req, rq)
+			}
+			cs.Steps = append(cs.Steps, rd)
 			continue
 		}
 		s := c16Step{Group: g}
@@ -365,7 +468,7 @@ func c16GenFamily(r *vRand, etcd bool) c16Case {
 }
 
 func TestVerifC16(t *testing.T) {
-	rep := vNewReport("C16", "generated histories of 2-14 OffsetCommit / OffsetFetch calls through the real GroupCoordinator over 1-3 groups x 1-3 topics x partitions, names drawn from an alphabet with ':', '/', '%', unicode and the empty string (40% plain), each history on the real InMemoryStore and on the real EtcdStore; every third history is a group-id family (ids related by path cleaning, trailing/leading/double separators, dot segments, case, unicode normalisation, whitespace, percent-encoding; one slash-free topic and partition; interleaved commits and fetches, a member never committed); on etcd the real key set under /kafscale/consumers/ is read after every commit; a case is non-trivial when a fetch reads back a committed offset and another fetch reads a never-committed partition; distinct = distinct canonical history")
+	rep := vNewReport("C16", "generated histories of 2-14 OffsetCommit / OffsetFetch requests through the real GroupCoordinator (more than half of the commits are whole requests of 1-4 topics x 1-4 partitions with per-partition metadata null / empty / text, read back at once) over 1-3 groups x 1-3 topics x partitions, names drawn from an alphabet with ':', '/', '%', unicode and the empty string (40% plain), each history on the real InMemoryStore and on the real EtcdStore; every third history is a group-id family (ids related by path cleaning, trailing/leading/double separators, dot segments, case, unicode normalisation, whitespace, percent-encoding; one slash-free topic and partition; interleaved commits and fetches, a member never committed); on etcd the real key set under /kafscale/consumers/ is read after every commit; a case is non-trivial when a fetch reads back a committed offset and another fetch reads a never-committed partition; distinct = distinct canonical history")
 	eps := testutil.StartEmbeddedEtcd(t)
 	cli, err := clientv3.New(clientv3.Config{Endpoints: eps, DialTimeout: 5 * time.Second})
 	if err != nil {
@@ -430,6 +533,9 @@ func TestVerifC16(t *testing.T) {
 				{Etcd: etcd, Steps: []c16Step{{Commit: true, Group: "a:b", Topic: "c", Off: 7, Meta: "x"}, {Group: "a", Req: []c16Req{{Topic: "b:c", Parts: []int32{0}}}}, {Group: "a:b", Req: []c16Req{{Topic: "c", Parts: []int32{0}}}}}},
 				// etcd path collision (open finding on etcd)
 				{Etcd: etcd, Steps: []c16Step{{Commit: true, Group: "a/offsets/b", Topic: "c", Off: 7, Meta: "x"}, {Group: "a", Req: []c16Req{{Topic: "b/offsets/c", Parts: []int32{0}}}}}},
+				// one request, several partitions: text metadata, then null, then "" - each partition its own
+				{Etcd: etcd, Steps: []c16Step{{Commit: true, Group: "g1", Creq: []c16CTopic{{Topic: "orders", Parts: []c16CPart{{Part: 0, Off: 5, Meta: c16P("checkpoint-a")}, {Part: 1, Off: 6}, {Part: 2, Off: 7, Meta: c16P("")}}}, {Topic: "events", Parts: []c16CPart{{Part: 0, Off: 8}, {Part: 1, Off: 9, Meta: c16P("b")}}}}},
+					{Group: "g1", Req: []c16Req{{Topic: "orders", Parts: []int32{0, 1, 2, 3}}, {Topic: "events", Parts: []int32{0, 1}}}}}},
 				// group ids related by path cleaning, slash-free topic: must stay apart on every store
 				{Etcd: etcd, Steps: []c16Step{{Commit: true, Group: "team", Topic: "orders", Off: 11, Meta: "a"}, {Commit: true, Group: "team/", Topic: "orders", Off: 22, Meta: "b"}, {Commit: true, Group: "a/../team", Topic: "orders", Off: 33, Meta: "c"},
 					{Group: "team", Req: []c16Req{{Topic: "orders", Parts: []int32{0}}}}, {Group: "team/", Req: []c16Req{{Topic: "orders", Parts: []int32{0}}}}, {Group: "team/.", Req: []c16Req{{Topic: "orders", Parts: []int32{0}}}}, {Group: "./team", Req: []c16Req{{Topic: "orders", Parts: []int32{0}}}}}},
